@@ -210,6 +210,7 @@ class Circuit:
         user_mode = mode
         mode = self._map_mode(mode)
         self._mode_in_range(mode)
+        mode = int(mode)
         # Make copy of circuit to avoid modification
         circuit_copy = circuit.copy()
         # Use unpack groups and check if heralds are used
@@ -468,6 +469,7 @@ class Circuit:
         output_mode = self._map_mode(output_mode)
         self._mode_in_range(input_mode)
         self._mode_in_range(output_mode)
+        input_mode, output_mode = int(input_mode), int(output_mode)
         # Check if herald already used on input or output
         if input_mode in self.__in_heralds:
             raise ValueError("Heralding already set for chosen input mode.")
